@@ -36,6 +36,7 @@ CONFIGS = {
         BASE_FLAGS,
     ),
     "unstable": (["--features", "unstable"], BASE_FLAGS),
+    "unstable_nostd": (["--no-default-features", "--features", "unstable"], BASE_FLAGS),
     "default_dbg": ([], DBG_FLAGS),
 }
 ALL_RELEASE_CONFIGS = [c for c in CONFIGS if c != "default_dbg"]
@@ -189,3 +190,53 @@ if __name__ == "__main__":
     for c, d in fb.items():
         print(c, len(d["fns"]), "fns", d["_path"])
     print("%.1fs" % (time.time() - t))
+
+
+# --------------------------------------------------------------------------------------------------
+# E4: plain build matrix (stable toolchain unless the configuration needs nightly)
+# --------------------------------------------------------------------------------------------------
+
+BUILD_MATRIX = {
+    "nostd": (["--no-default-features"], "stable"),
+    "alloc": (["--no-default-features", "--features", "alloc"], "stable"),
+    "default": ([], "stable"),
+    "eio": (["--features", "embedded-io"], "stable"),
+    "eioa": (["--features", "embedded-io-async"], "stable"),
+    "eio_both": (["--features", "embedded-io,embedded-io-async"], "stable"),
+    "eio_both_nostd": (["--no-default-features", "--features", "embedded-io,embedded-io-async"], "stable"),
+    "unstable": (["--features", "unstable"], "nightly"),
+    "unstable_nostd": (["--no-default-features", "--features", "unstable"], "nightly"),
+}
+
+
+def plain_check(name, thash=None):
+    """cargo check --offline --lib for one entry of the build matrix. Returns (ok, message).
+    Cached by tree hash."""
+    feats, tc = BUILD_MATRIX[name]
+    thash = thash or tree_hash()
+    key = hashlib.sha256(("build|%s|%s|%s" % (thash, name, tc)).encode()).hexdigest()[:24]
+    os.makedirs(CACHE, exist_ok=True)
+    marker = os.path.join(CACHE, "build-%s-%s.json" % (name, key))
+    if os.path.exists(marker):
+        with open(marker) as fh:
+            d = json.load(fh)
+        return d["ok"], d["msg"]
+    tgt = scratch_dir("bld-" + name)
+    try:
+        cmd = ["cargo"] + (["+nightly"] if tc == "nightly" else []) + ["check", "--offline", "--lib"] + feats
+        p = subprocess.run(cmd, cwd=REPO, env=cargo_env({"CARGO_TARGET_DIR": tgt}), capture_output=True, text=True)
+        ok = p.returncode == 0
+        msg = "" if ok else p.stderr[-3000:]
+    finally:
+        shutil.rmtree(tgt, ignore_errors=True)
+    with open(marker, "w") as fh:
+        json.dump({"ok": ok, "msg": msg, "cmd": " ".join(cmd)}, fh)
+    for f in sorted([x for x in os.listdir(CACHE) if x.startswith("build-")], key=lambda x: os.path.getmtime(os.path.join(CACHE, x)))[:-60]:
+        os.remove(os.path.join(CACHE, f))
+    return ok, msg
+
+
+def plain_checks(names):
+    thash = tree_hash()
+    with ThreadPoolExecutor(max_workers=8) as ex:
+        return dict(zip(names, ex.map(lambda n: plain_check(n, thash), names)))
